@@ -234,18 +234,20 @@ def instantiate(forms, name_to_id, rng, tier):
                     if mode == 0 and not any(o["mem"].startswith("vm") or o["mem"] in ("mib", "tmem") for o in expl if o["mem"]):
                         variants.append(("db-decor", v[1] + ["addr16"], [(" ".join(t.split()[:2] + [str(RT["gpw"])] + t.split()[3:]) if t.startswith("M ") else t) for t in v[2]], 0, None))
             if mode == 1 and (f.get("opcode") or "").startswith("EVEX"):
-                def hi2(t):
-                    q = t.split()
-                    if q[0] == "R" and int(q[1]) in (RT["xmm"], RT["ymm"], RT["zmm"]) and q[2] == "3":
-                        return "R %s 19" % q[1]
-                    if q[0] == "M" and int(q[4]) in (RT["xmm"], RT["ymm"], RT["zmm"]):
-                        q[5] = "21"
-                        return " ".join(q)
-                    return t
-                for v in variants[:2]:
-                    ht = [hi2(t) for t in v[2]]
-                    if ht != v[2] and v[0] == "db":
-                        variants.append(("db-decor", v[1] + ["v16-31"], ht, 0, None))
+                # both ends of the register range only EVEX can name: 16 and 31
+                for vid, lab in ((16, "v16"), (31, "v31")):
+                    def hi2(t, vid=vid):
+                        q = t.split()
+                        if q[0] == "R" and int(q[1]) in (RT["xmm"], RT["ymm"], RT["zmm"]) and q[2] == "3":
+                            return "R %s %d" % (q[1], vid)
+                        if q[0] == "M" and int(q[4]) in (RT["xmm"], RT["ymm"], RT["zmm"]):
+                            q[5] = str(vid)
+                            return " ".join(q)
+                        return t
+                    for v in variants[:2]:
+                        ht = [hi2(t) for t in v[2]]
+                        if ht != v[2] and v[0] == "db":
+                            variants.append(("db-decor", v[1] + [lab], ht, 0, None))
             if mode == 1:
                 def hi(t):
                     q = t.split()
@@ -259,6 +261,15 @@ def instantiate(forms, name_to_id, rng, tier):
                     ht = [hi(t) for t in v[2]]
                     if ht != v[2] and v[0] in ("db",):
                         variants.append(("db-decor", v[1] + ["r8-15"], ht, 0, None))
+            # the ends of the immediate class the database names (case-split boundaries of the validator's immediate ladder)
+            for k, o in enumerate(expl):
+                if allowed and o["imm"] and o["immValue"] is None and o["imm"] in (8, 16, 32):     # (in an excluded mode a sibling form may own the value)
+                    n_ = o["imm"]
+                    ends = {"signed": [(1 << (n_ - 1)) - 1, -(1 << (n_ - 1))], "unsigned": [(1 << n_) - 1], "any": [(1 << n_) - 1, -(1 << (n_ - 1))]}.get(o["immSign"], [])
+                    for v in variants[:1]:
+                        if v[0] == "db" and v[2][k].startswith("I "):
+                            for e_ in ends:
+                                variants.append(("db-decor", v[1] + ["imm=%d" % e_], v[2][:k] + ["I %d" % e_] + v[2][k + 1:], 0, None))
             for k, o in enumerate(expl):
                 if o["imm"] and o["immValue"] is None and o["immSign"] in ("any", "signed") and o["imm"] >= 8:
                     for v in variants[:2]:
